@@ -847,6 +847,26 @@ theorem random_access_terminates_partial (entryAt : Nat → Except Err Kind) (id
             · exact resolveAt_app_ne_none (ih o hlt fuel (by omega))
         · split <;> simp
 
+/-- The same for the entries of ANY byte string read at ANY offset (`entryAtOf`): the OFS half of the hypothesis
+is discharged by the parser's zero-offset guard (`parse_ofs_pos`), only the condition on the index remains. -/
+theorem random_access_terminates_parsed (inflate : Inflate) (inp : Bytes) (idx : Bytes → Option Nat)
+    (ext : Bytes → Option (Nat × Bytes))
+    (href : ∀ off name d o, entryAtOf inflate inp off = .ok (.ref name d) → idx name = some o → o < off) :
+    ∀ (off fuel : Nat), off < fuel → resolveAt (entryAtOf inflate inp) idx ext fuel off ≠ none := by
+  apply random_access_terminates_partial _ _ _ _ href
+  intro off k d h
+  unfold entryAtOf at h
+  split at h
+  · cases h
+  · split at h
+    · rename_i e r he
+      simp only [Except.ok.injEq] at h
+      obtain ⟨eo, ek⟩ := e
+      simp only at h
+      subst h
+      exact parse_ofs_pos he
+    · cases h
+
 /-- Non-vacuity: a chain REF → OFS → full satisfies the hypotheses and resolves. -/
 example :
     let entryAt : Nat → Except Err Kind := fun off =>
